@@ -273,6 +273,9 @@ def deserialize_address(address, encoding=None, network=None):
                 networks_p2pkh = network_by_value('prefix_address', address_prefix.hex())
                 networks_p2sh = network_by_value('prefix_address_p2sh', address_prefix.hex())
                 public_key_hash = key_hash[1:]
+                if len(public_key_hash) != 20:
+                    raise EncodingError("Invalid address %s, hash must be 20 bytes not %d" %
+                                        (address, len(public_key_hash)))
                 script_type = ''
                 witness_type = ''
                 networks = []
